@@ -263,7 +263,7 @@ Definition fq_walk (n d : nat) : list (list Z) :=
 (* connectors/_utils.py:precalculate_fermionic_passive_linear_indices *)
 Definition precalc (n d : nat) : list (list Z) * list (list Z) :=
   let walk := fq_walk n d in
-  (walk,
+  (map (fun fq => map (fun l => nth l fq 0%Z) (seq 0 n)) walk,   (* laplace_indices[row, l] = fq[l] *)
    map (fun fq => map (fun l => f_subspace_index_fq (delete_nth l fq) (Z.of_nat d)) (seq 0 n)) walk).
 
 (* connections.py:calculate_interferometer_on_fermionic_fock_space (generic: walks the
